@@ -353,7 +353,15 @@ namespace via
                                    http_connection->request(),
                                    http_connection->body());
           else
+          {
             http_connection->send_response();
+            // the chunks of the request will follow, so pass the request
+            // on to the application now
+            if (http_chunk_handler_ && http_connection->request().is_chunked())
+              http_request_handler_(http_connection,
+                                    http_connection->request(),
+                                    http_connection->body());
+          }
           break;
 
         case http::Rx::CHUNK:
